@@ -121,9 +121,9 @@ def reduce_(ex, op, a, axis=None):
     nc = conc(n)
     if isinstance(nc, int) and nc <= MAX_EXPAND:
         if nc == 0:
-            if op == 'sum':
-                zero = 0
-                return zero if not oshape else Arr(oshape, lambda idx: 0, rkind)
+            if op in ('sum', 'any', 'all'):
+                zero = {'sum': 0, 'any': False, 'all': True}[op]
+                return zero if not oshape else Arr(oshape, lambda idx: zero, rkind)
             raise SymRaise('ValueError', 'zero-size array to reduction operation')
         if nc <= MAX_EXPAND and ex.foralls:
             for j in range(nc):
@@ -211,6 +211,7 @@ def _make(ex, op, n, nouter, body, kind):
         r.exists = lambda o: z3.And(wit(o) >= 0, wit(o) < nz, toz(tobool(s_eq(body(o, wit(o)), res(o)))))
         if nouter == 0:
             ex.assume(z3.Implies(nz > 0, r.exists(())))
+            _register(ex, r, nz)
             ex.add_index_term(wit(()))
         reds.append(r)
         return r
@@ -231,6 +232,7 @@ def _make(ex, op, n, nouter, body, kind):
         r.exists = exists
         if nouter == 0:
             ex.assume(exists(()))
+            _register(ex, r, nz)
             ex.add_index_term(wit(()))
         reds.append(r)
         return r
@@ -248,10 +250,22 @@ def _make(ex, op, n, nouter, body, kind):
         r.exists = lambda o: z3.And(res(o) >= 0, res(o) < nz)
         if nouter == 0:
             ex.assume(z3.Implies(nz > 0, r.exists(())))
+            _register(ex, r, nz)
             ex.add_index_term(res(()))
         reds.append(r)
         return r
     raise Unsupported(f'reduction {op}')
+
+
+def _register(ex, r, nz):
+    """universal halves of a scalar reduction become facts instantiated at every index term of the path"""
+    for fa in r.foralls:
+        def g(t, fa=fa):
+            try:
+                return z3.Implies(z3.And(t >= 0, t < nz), fa((), t))
+            except (Unsupported, SymRaise):
+                return z3.BoolVal(True)
+        ex.add_forall(g)
 
 
 def instances(ex, outer_terms, j_terms):
@@ -270,4 +284,24 @@ def instances(ex, outer_terms, j_terms):
                         out.append(z3.Implies(z3.And(jz >= 0, jz < nz), fa(o, jz)))
                     except (Unsupported, SymRaise):
                         pass
+    return out
+
+
+def sum_complement_lemmas(ex):
+    """linearity of sums, instantiated for pairs of registered scalar sums over the same range whose bodies add up to 1
+    element-wise:  sum f + sum g = n.   (checked by the solver at a fresh index before the lemma is emitted)"""
+    out = []
+    sums = [r for r in ex.__dict__.get('reds', []) if r.op == 'sum' and r.nouter == 0 and getattr(r, 'kind', None) in ('int', 'bool')]
+    for a in range(len(sums)):
+        for b in range(a + 1, len(sums)):
+            r1, r2 = sums[a], sums[b]
+            if not ex.entails(tobool(s_eq(r1.n, r2.n))):
+                continue
+            j = ex.newvar('j', 'int')
+            try:
+                body = tonum(r1.body((), j)) + tonum(r2.body((), j)) == 1
+            except (Unsupported, SymRaise):
+                continue
+            if ex.entails(z3.Implies(z3.And(j >= 0, j < tonum(r1.n)), body)):
+                out.append(z3.Implies(tonum(r1.n) >= 0, tonum(r1.result(())) + tonum(r2.result(())) == tonum(r1.n)))
     return out
